@@ -678,3 +678,81 @@ Definition run_backend (inp : list Z) : list Z :=
       out_list (s_imports s0) ++ flat_map (fun x => out_bcall x ++ [-9]) calls ++ out_list (s_imports s)
   | _ => bad_input
   end.
+
+(* ---- components of C11: port lifecycle ---- *)
+Require Import Mido.Model.Ports.
+Fixpoint in_actions (n : nat) (l : list Z) : list action * list Z :=
+  match n with
+  | O => ([], l)
+  | S k =>
+    match l with
+    | 0 :: m :: r => let '(as_, r') := in_actions k r in (AMsg m :: as_, r')
+    | 1 :: r => let '(as_, r') := in_actions k r in (ANothing :: as_, r')
+    | 2 :: r => match in_list r with Some (ms, r1) => let '(as_, r') := in_actions k r1 in (APush ms :: as_, r') | None => ([], l) end
+    | 3 :: r => let '(as_, r') := in_actions k r in (AClose :: as_, r')
+    | 4 :: r => match in_list r with Some (ms, r1) => let '(as_, r') := in_actions k r1 in (APushClose ms :: as_, r') | None => ([], l) end
+    | _ => ([], l)
+    end
+  end.
+Definition out_pout (x : pout) : list Z :=
+  match x with
+  | ONone_ => [0] | OMsg_ None => [1; -1] | OMsg_ (Some m) => [1; m] | OList_ l => 2 :: out_list l | OErr_ e => [3; exn_code e]
+  end.
+Definition out_pstate (p : port) : list Z :=
+  [if p_closed p then 1 else 0; Z.of_nat (p_closes p); Z.of_nat (p_sleeps p); Z.of_nat (p_calls p); zlen (p_sent p); zlen (p_queue p)].
+Fixpoint run_pops (fuel : nat) (n : nat) (p : port) (l : list Z) : list Z :=
+  match n with
+  | O => []
+  | S k =>
+    let go o r := let '(p1, x) := port_step fuel p o in out_pout x ++ out_pstate p1 ++ [-9] ++ run_pops fuel k p1 r in
+    match l with
+    | [] => out_list (p_sent p) ++ out_list (p_queue p)
+    | 0 :: m :: r => go (PSend m) r
+    | 1 :: b :: r => go (PReceive (negb (b =? 0))) r
+    | 2 :: r => go PPoll r
+    | 3 :: r => go PIterPending r
+    | 4 :: c :: r => go (PIterate (if c <? 0 then 1000%nat else Z.to_nat c)) r
+    | 5 :: r => go PClose r
+    | 6 :: m :: r => go (PWith m) r
+    | 7 :: r => go PDel r
+    | _ => bad_input
+    end
+  end.
+Definition run_port (inp : list Z) : list Z :=
+  match inp with
+  | ar :: echo :: fuel :: ns :: r =>
+      let '(script, ops) := in_actions (Z.to_nat ns) r in
+      run_pops (Z.to_nat fuel) (S (length ops)) (new_port (negb (ar =? 0)) (negb (echo =? 0)) script) ops
+  | _ => bad_input
+  end.
+Fixpoint in_subs (n : nat) (l : list Z) : list port * list Z :=
+  match n with
+  | O => ([], l)
+  | S k => match l with
+           | c :: r => match in_list r with
+                       | Some (q, r1) =>
+                           let '(ps, r') := in_subs k r1 in
+                           ({| p_closed := negb (c =? 0); p_queue := q; p_script := []; p_closes := 0; p_sent := []; p_autoreset := false;
+                               p_echo := true; p_sleeps := 0; p_calls := 0 |} :: ps, r')
+                       | None => ([], l)
+                       end
+           | [] => ([], l)
+           end
+  end.
+(* [fuel; block; nsubs; subs (closed, queue)...; receives] : that many receive calls on a MultiPort *)
+Fixpoint run_multi_n (n fuel : nat) (block : bool) (mp : multi) : list Z :=
+  match n with
+  | O => [Z.of_nat (m_sleeps mp)]
+  | S k => let '(mp', r) := multi_receive fuel block mp in
+           (match r with Ok (Some m) => [1; m] | Ok None => [1; -1] | Raise e => [3; exn_code e] end) ++ run_multi_n k fuel block mp'
+  end.
+Definition run_multi (inp : list Z) : list Z :=
+  match inp with
+  | fuel :: b :: ns :: r =>
+      let '(subs, r') := in_subs (Z.to_nat ns) r in
+      match r' with
+      | [k] => run_multi_n (Z.to_nat k) (Z.to_nat fuel) (negb (b =? 0)) {| m_queue := []; m_subs := subs; m_sleeps := 0 |}
+      | _ => bad_input
+      end
+  | _ => bad_input
+  end.
